@@ -48,9 +48,17 @@ def point_table():
         f = inspect.unwrap(fn)
         tab[(f.__code__.co_filename, f.__code__.co_name)] = True
     tab[(srvmod.__file__, "streamer")] = True
-    for name in ("lock", "unlock", "is_locked", "try_lock"):
-        if hasattr(bptkmod.bptk, name):
-            f = getattr(bptkmod.bptk, name)
+    # every function (and property getter) of the bptk class whose source mentions the lock: lock, unlock, is_locked, try_lock and
+    # whatever helper the library may put around its mutex
+    for name, member in vars(bptkmod.bptk).items():
+        f = member.fget if isinstance(member, property) else member
+        if not inspect.isfunction(f) or name in ("run_step", "__init__"):
+            continue
+        try:
+            src = inspect.getsource(f)
+        except (OSError, TypeError):
+            continue
+        if "lock" in src.lower() and len(src.splitlines()) <= 40:
             tab[(f.__code__.co_filename, f.__code__.co_name)] = True
     # bptk.run_step: the lines that touch the session
     f = bptkmod.bptk.run_step
@@ -69,13 +77,36 @@ def is_point(code):
 
 
 def setup_server():
+    _install_lock_shim()
     app, client = srv.make_server(srv.make_factory(0.0, STOP, 1.0))
     iid = srv.start_instance(client)
     client.post("/%s/begin-session" % iid, json={"scenario_managers": [SM], "scenarios": ["base"], "equations": EQS})
     inst = app._instance_manager._instances[iid]["instance"]
-    if hasattr(inst, "_lock_guard"):
-        inst._lock_guard = sched.CLock()
     return app, iid, inst
+
+
+class _ThreadingShim:
+    """stands in for the `threading` module inside BPTK_Py.bptk while a controlled execution is set up and run: every mutex the
+    library creates there (in the constructor or later) is a scheduler-owned CLock - a real threading.Lock would hang the baton"""
+
+    def __init__(self, real):
+        self._real = real
+
+    def Lock(self):
+        return sched.CLock()
+
+    def RLock(self):
+        return sched.CLock()
+
+    def __getattr__(self, name):
+        return getattr(self._real, name)
+
+
+def _install_lock_shim():
+    import sys
+    mod = sys.modules["BPTK_Py.bptk"]
+    if not isinstance(getattr(mod, "threading", None), _ThreadingShim) and hasattr(mod, "threading"):
+        mod.threading = _ThreadingShim(mod.threading)
 
 
 def do_request(app, iid, kind):
@@ -193,6 +224,72 @@ def _expand(arg):
     return (verdict, list(choices), obs, npts, kids)
 
 
+# ---- sequential hold cases: a multi-step request in progress keeps its lock whatever else is asked of the server ------------------
+
+BYSTANDERS = [("GET", "/save-state", None), ("GET", "/full-metrics", None), ("GET", "/metrics", None), ("POST", "/{id}/keep-alive", None),
+              ("GET", "/{id}/session-results", None), ("GET", "/{id}/flat-session-results", None),
+              ("POST", "/{id}/run-step", {"settings": {}}), ("POST", "/{id}/run-step", None), ("POST", "/{id}/run-steps", {"numberSteps": 2, "settings": {}}),
+              ("POST", "/{id}/stream-steps", {"settings": {}}), ("POST", "/{id}/stream-steps", None), ("POST", "/start-instance", None)]
+
+
+def hold_cases():
+    import os
+    import shutil
+    from BPTK_Py.externalstateadapter import FileAdapter
+    out = []
+    for with_adapter in (False, True):
+        for bi, (method, path, body) in enumerate(BYSTANDERS):
+            if path == "/save-state" and not with_adapter:
+                continue
+            sd = os.path.join(core.scratch_dir(), "c18_hold_%d" % os.getpid())
+            shutil.rmtree(sd, ignore_errors=True)
+            os.makedirs(sd)
+            case = {"hold": [with_adapter, bi]}
+            label = "%s %s%s, %s adapter" % (method, path, "" if body is None else " (json)", "with" if with_adapter else "without")
+            try:
+                _install_lock_shim()
+                app, client = srv.make_server(srv.make_factory(0.0, 6.0, 1.0), adapter=FileAdapter(False, sd) if with_adapter else None)
+                iid = srv.start_instance(client)
+                client.post("/%s/begin-session" % iid, json={"scenario_managers": [SM], "scenarios": ["base"], "equations": EQS})
+                client.post("/%s/run-step" % iid, json={"settings": {}})         # t = 0
+                stream = client.post("/%s/stream-steps" % iid, json={"settings": {}})
+                it = stream.iter_encoded()
+                first = next(it)                                                  # the stream is in progress and stays open
+                c2 = app.test_client()
+                kw = {} if body is None else {"json": body}
+                r = c2.open(path.replace("{id}", iid), method=method, **kw)
+                try:
+                    srv.read_stream(r, 50)
+                except Exception:
+                    pass
+                if "step" in path and r.status_code == 200:
+                    out.append(("hold/stepping-request-served-while-a-stream-is-open/%s" % label, case, "%s -> 200" % label))
+                    continue
+                # whatever the bystander was: the instance is still locked for stepping requests
+                r2 = c2.post("/%s/run-step" % iid, json={"settings": {}})
+                if r2.status_code == 200:
+                    out.append(("hold/lock-lost-after/%s" % label, case, "stream-steps in progress; after %s (status %d) a run-step is served: %r" % (
+                        label, r.status_code, str(srv.body(r2))[:160])))
+                    continue
+                rest = b"".join([first] + list(it))
+                stream.close()
+                import json as _json
+                steps = srv.unpickle_json(_json.loads(rest.decode()))
+                ts = times_of("stream-steps", 200, steps)
+                if ts in (None, "MALFORMED") or any(not core.close(b - a, 1.0) for a, b in zip(ts, ts[1:])) or not ts or not core.close(ts[0], 1.0):
+                    out.append(("hold/stream-disturbed/%s" % label, case, "the stream returned times %r" % (ts,)))
+                    continue
+                r3 = c2.post("/%s/run-step" % iid, json={"settings": {}})
+                if r3.status_code != 200:
+                    out.append(("hold/lock-not-released-after-stream/%s" % label, case, "follow-up run-step -> %d" % r3.status_code))
+            except Exception as e:
+                import traceback
+                out.append(("hold/raises/%s" % label, case, traceback.format_exc()[-300:]))
+            finally:
+                shutil.rmtree(sd, ignore_errors=True)
+    return out
+
+
 # ---- sequential release cases -----------------------------------------------------------------
 
 def release_cases():
@@ -263,6 +360,10 @@ def run(ctx):
         # the two smallest pairs get bound 2 in the quick tier as well: a window between checking and taking the lock needs one
         # preemption to enter and a second one to keep the other request in progress
         b2 = 2 if ((ctx.tier == "thorough" and kinds in combos) or kinds in (("run-step", "run-step"), ("run-step", "run-steps"), ("run-step:nobody", "run-step:nobody"))) else 1
+        if ctx.tier == "thorough" and kinds == ("run-step", "run-step"):
+            # a defect confined to the lock primitives (say, a guard that is created lazily) needs one preemption to enter the window, one
+            # to let the other request into it and a third one to keep the first request in progress while the second one starts
+            b2 = 3
         for r in sched.alternatives(points, choices, 0, b2):
             jobs.append((list(kinds), b2, r))
     # three requests: bound 1 for all kind triples (thorough), bound 2 for the triples that contain a stream and a single step
@@ -303,20 +404,25 @@ def run(ctx):
             ctx.violation("C18/%s/%s" % (verdict[0], "+".join(kinds)), {"kinds": kinds, "choices": choices}, verdict[1])
     for sig, case, detail in release_cases():
         ctx.violation("C18/" + sig, case, detail)
+    for sig, case, detail in hold_cases():
+        ctx.violation("C18/" + sig, case, detail)
     ctx.finish({
         "states": total, "transitions": total, "traces_validated_against_impl": total,
-        "preemption_bound": bound, "preemption_bound_small_pairs": 2, "max_scheduling_points": maxpts, "request_combinations": ["+".join(k) for k in combos_all],
+        "preemption_bound": bound, "preemption_bound_small_pairs": 2, "preemption_bound_run-step+run-step": 3 if ctx.tier == "thorough" else 2, "max_scheduling_points": maxpts, "request_combinations": ["+".join(k) for k in combos_all],
         "distinct_outcomes_per_combination": {k: len(v) for k, v in outcomes.items()},
-        "release_cases": 8,
+        "release_cases": 8, "hold_cases": 2 * len(BYSTANDERS) - 1,
         "samples": [{"kinds": jobs[1][0], "schedule_prefix": jobs[1][2]}, {"kinds": jobs[-1][0], "schedule_prefix": jobs[-1][2]}],
         "rule": "every schedule with <= %d preemptions of two concurrent stepping requests (all 6 unordered kind pairs, and pairs with a request that has no JSON body at <= 1%s) at the source lines of the stepping "
-                "handlers, the streamer, lock/unlock/is_locked/try_lock and the session-touching lines of bptk.run_step; plus 8 sequential release cases" % (
+                "handlers, the streamer, lock/unlock/is_locked/try_lock and the session-touching lines of bptk.run_step; plus 8 sequential release cases and 23 hold cases (a stream in progress x 12 bystander requests x with/without a state adapter: the lock is kept, the stream undisturbed)" % (
                     bound, "; three requests: " + ", ".join("%s<=%d" % ("+".join(k), b) for k, b in triples)),
     }, assumptions=["preemption at source-line granularity only", "Flask test clients in controlled threads instead of a threaded WSGI server",
                     "the per-equation simulation threads of a step run to completion inside their parent's turn"])
 
 
 def replay(case):
+    if "hold" in case:
+        r = [x for x in hold_cases() if x[1]["hold"] == case["hold"]]
+        return r or None
     if "release" in case:
         r = [x for x in release_cases() if x[1]["release"] == case["release"]]
         return r or None
